@@ -75,6 +75,7 @@ Definition ex_fragment : list stmt :=
   [SEmit 0 v0; SYield;
    SWhile (lt0 (EVar 1)) [SAssign 1 (ESub (EVar 1) (EConst 1)); SIf (EEq (EVar 1) (EConst 1)) [SEmit 1 (EVar 1)] [SEmit 2 v0]];
    forloop 100 2 [SAwait 0 0 (EVar 100); SEmit 3 v0];
+   SWhile (lt0 (EVar 2)) [SAssign 2 (ESub (EVar 2) (EConst 1)); SEmit 4 (EVar 2); SYield];
    SYield; SReturn (EAdd v0 (EConst 7))].
 Example ex_fragment_wf : wf_body [O; 1%nat; 2%nat] ex_fragment = true.
 Proof. vm_compute. reflexivity. Qed.
